@@ -7,7 +7,7 @@ import itertools
 
 from .common import Suite, hx, merge
 
-GEN_UNITS = ["B64"]
+GEN_UNITS = ["B64", "B64Engine"]
 LEAN_TARGETS = ["PasslibVerif.Props.C12"]
 ASSUMPTIONS = [
     "binascii / base64 C codecs are external: modelled by Spec.Rfc4648 and compared on every generated input",
